@@ -634,7 +634,7 @@ def run_check(check_id: str, tier: str, seed: int, jobs: int | None = None, only
         "states": total.paths,
         "transitions": max(total.decisions, total.paths),
         "traces_validated_against_impl": n_replays + n_val_ok,
-        "encoding_validation": {"edge_points_not_compared": len(EDGE_POINTS), "points_compared_ok": n_val_ok, "points_requested": len(val_points), "mismatches": len(val_mism), "errors": len(val_errs), "what": "observables of the symbolic run evaluated at a model of the path condition vs. the same scenario on floats in a fresh interpreter with JIT enabled"},
+        "encoding_validation": {"edge_points_not_compared": len(EDGE_POINTS), "interior_points": sum(1 for _c, _vp in val_points if _vp.get("robust")), "points_compared_ok": n_val_ok, "points_requested": len(val_points), "mismatches": len(val_mism), "errors": len(val_errs), "what": "observables of the symbolic run evaluated at a model of the path condition vs. the same scenario on floats in a fresh interpreter with JIT enabled"},
         "counterexample_replays": n_replays,
         "cvc5_cross_check": {k: v for k, v in x_summary.items() if k != "disagreements"} | {"disagreements": len(x_summary["disagreements"])},
         "counterexamples_not_replayed_duplicates": n_cex_skipped,
